@@ -255,6 +255,11 @@ def probe_verdict(s, recs, serial_recs):
             not_blocked = dict(signature="probe-lock-scope", divergence=True, name=s["name"], config=s["cfg"], events=s["events"], no_shrink=True,
                                what="%s: '%s' completed (%s) while the other thread was stopped inside the action holding its lock - the action is not atomic with respect to it, as the model assumes"
                                     % (s.get("note", s["name"])[:200], recs[eb]["ev"], recs[eb]["ret"]))
+    enb = s.get("expect_not_blocked")
+    if enb is not None and len(recs) > enb and recs[enb]["ret"] and recs[enb]["ret"][0] == 8:
+        # a step that needs only locks nobody may be holding at this moment: a thread that waits for a lock must not keep another one
+        return dict(signature="lock-held-while-waiting", name=s["name"], config=s["cfg"], events=s["events"][: enb + 1], no_shrink=True,
+                    what="%s: '%s' did not get through - the lock it needs is still held by a thread that is itself waiting for another lock" % (s.get("note", s["name"])[:260], recs[enb]["ev"]))
     if s.get("alive_only"):
         # probes judged by C17 alone: the overlapped execution may end differently from both serial orders (the code's actions are
         # smaller than the model's here); what is demanded is that no thread died, the probe ran to its end, every acknowledgement
